@@ -16,6 +16,8 @@ CONSTANTS
   TxnBeforeGate = FALSE
   NestedCloseClearsMark = FALSE
   ReadNotCounted = FALSE
+  SqueezedFits = TRUE
+  ReopenClampsMap = FALSE
   BatchMax = 1
   MaxOps = 22
   WithReads = FALSE
@@ -23,4 +25,4 @@ CONSTANTS
   Offset = 0
 VIEW View
 INVARIANTS TypeOK ShadowAgrees LookupTopDown NoMapFull WaiterOwnsNothing CountAgrees MarkAgrees NoRemapUnderTxn NoHolderParked GateLive
-PROPERTIES CommitAtomic ChildFolds DropNoTrace SnapStable ResizeStutter CrashDurable ResizeGate
+PROPERTIES CommitAtomic ChildFolds DropNoTrace SnapStable ResizeStutter CrashDurable ResizeGate HeadroomKept
